@@ -69,7 +69,8 @@ for o in range(256):
     else:
         mn = name
     ops = ", ".join(atom(op) for op in (opts.ops or []))
-    rows.append(f'  [kind |-> "{kind}", cls |-> "{cls.__name__}", mn |-> "{mn}", cond |-> "{cond}", rev |-> {"TRUE" if opts.ops_reversed else "FALSE"}, ops |-> <<{ops}>>]')
+    tname = opts.name or cls.__name__
+    rows.append(f'  [kind |-> "{kind}", cls |-> "{cls.__name__}", tname |-> "{tname}", mn |-> "{mn}", cond |-> "{cond}", rev |-> {"TRUE" if opts.ops_reversed else "FALSE"}, ops |-> <<{ops}>>]')
 
 single = sorted(O.SINGLE_ADDRESSABLE_OPCODES)
 pre = sorted(O.PRE_BY_OPCODE)
